@@ -868,7 +868,7 @@ def main(chk: Check):
     # ---- wrap stream
     wrap_cases, wrap_meta = [], []
     import shlex
-    wreqs = [(rng.choice(HELPERS), rng.choice(EAPIS), gen_shvars(rng)) for _ in range(chk_n(120, 800))]
+    wreqs = [(rng.choice(HELPERS), rng.choice(EAPIS), gen_shvars(rng)) for _ in range(chk_n(120, 400))]
     for (h, e, sh), res in zip(wreqs, impl.wrapper_options_batch(wreqs)):
         if not isinstance(res, Err):
             got = {"dest": None, "insoptions": None, "diroptions": None}
@@ -906,7 +906,7 @@ def main(chk: Check):
     weights = {"doins": 5, "dodoc": 4, "doman": 5, "dohtml": 4, "domo": 2, "dosym": 6, "dohard": 3, "dodir": 2,
                "keepdir": 3, "doexe": 2, "dobin": 2, "dosbin": 1, "dolib": 1, "dolib.so": 1, "dolib.a": 1, "doinfo": 1}
     hpool = [h for h, w in weights.items() for _ in range(w)]
-    for k in range(chk_n(400, 5000)):
+    for k in range(chk_n(400, 3200)):
         h = rng.choice(hpool)
         malformed = rng.random() < 0.12
         td = rng.choice(trees)
